@@ -63,19 +63,19 @@ META = {
     "C10": {
         "technique": "runtime monitoring with fault enumeration: every adversarial frame sequence up to length 3 (thorough 4) against the real initiator and acceptor drivers over in-memory pipes; real<->real sessions with a local fault before every frame; shutdown races",
         "design_ref": "DESIGN.md §5 C10",
-        "level_text": "Exhaustive over the 14-letter frame alphabet up to the bounded length (x4 accept decisions), plus every fault position (close replica, sync off, actor shutdown, cut after / inside frame) of generated real sessions, plus requests racing with actor shutdown. Each side must end with Ok or a reported error, the outcome must be collectable, declines must not change the store, counters mirror on success, the actor must stay responsive. Non-termination is decided on exhausted inputs (streams closed, actor answering), not on a deadline.",
+        "level_text": "Exhaustive over the 15-letter frame alphabet up to the bounded length (x4 accept decisions), plus every fault position (close replica, sync off, actor shutdown, cut after / inside frame) of generated real sessions, plus requests racing with actor shutdown. Each side must end with Ok or a reported error, the outcome must be collectable, declines must not change the store, counters mirror on success, the actor must stay responsive. Non-termination is decided on exhausted inputs (streams closed, actor answering), not on a deadline.",
         "level_note": "The mirror equation is not judged when the harness cut the stream cleanly at a frame boundary: end-of-stream is the protocol's end marker and only an in-memory pipe can produce it on both sides mid-session.",
     },
     "C11": {
-        "technique": "runtime monitoring: seeded scheduler over the real coordination state and completion handlers of two/three real live actors (hook H5), with a network model that owns only in-flight objects; invariants S1-S5 checked after every event",
+        "technique": "runtime monitoring: seeded scheduler over the real coordination state and completion handlers of two/three real live actors (hook H5), with a network model that owns only in-flight objects; invariants S1-S5 checked after every event; plus a complete docs node on loopback QUIC driven by a hand-written hostile peer and judged at the wire and event boundary",
         "design_ref": "DESIGN.md §5 C11, Appendix A",
-        "level_text": "Random schedules of dial decisions, request delivery/loss, decline replies delivered/lost, and independent successful or failed completion of both session ends (including the acceptor's bookkeeping being overtaken by a re-dial), in both id orders. After every event: at most one session in progress per pair, crossing dials resolve to exactly one, refused reports lead to exactly one resync, nothing in flight implies both slots idle and a probe dial is accepted, unsynced documents are declined as not found. " + _EXPL,
+        "level_text": "Random schedules of dial decisions, request delivery/loss, decline replies delivered/lost, and independent successful or failed completion of both session ends (including the acceptor's bookkeeping being overtaken by a re-dial), in both id orders. After every event: at most one session in progress per pair, crossing dials resolve to exactly one, refused reports lead to exactly one resync, nothing in flight implies both slots idle and a probe dial is accepted, unsynced documents are declined as not found. Net mode runs the real accepting stack (net::handle_connection inside the running engine) against a peer that holds sessions open, dials again, and ends declined connections orderly, abruptly, by reset or by stop: no request may be accepted while an earlier accepted session still answers, no end of session may be reported for a session never allowed, and once every accepted session was reported finished the next request must be accepted. " + _EXPL,
         "level_note": "Progress ('never permanently busy') is decided at quiescent points of bounded histories (<=6 dials, <=14/24 events). The network model imposes only causality; handlers are invoked directly, not through the actor's select loop.",
     },
     "C12": {
         "technique": "runtime monitoring: subscriber channels drained after every acknowledged request of a real store actor; observational oracle (before/after lookups) for single entries, specification prediction for multi-entry messages",
         "design_ref": "DESIGN.md §5 C12",
-        "level_text": "Histories of local inserts, deletions, remote inserts, single- and multi-entry reconciliation messages (with invalid entries) and sessions in which a local write lands between two messages, with up to four subscribers joining, unsubscribing and dropping receivers and changing download policies. Exactly the applied entries produce exactly one event per current subscriber, with the right kind, peer, status, flag and order. " + _EXPL,
+        "level_text": "Histories of local inserts, deletions, remote inserts, single- and multi-entry reconciliation messages (with invalid entries) and sessions in which a local write lands between two messages, with up to four subscribers joining, unsubscribing and dropping receivers and changing download policies; one case in eight has a slow subscriber (bounded channel drained with a delay) and callers that give up on requests while the actor waits in event delivery, judged against the final replica content. Exactly the applied entries produce exactly one event per current subscriber, with the right kind, peer, status, flag and order. " + _EXPL,
         "level_note": "'Applied' is read off the call result and lookups, so a defect of the merge rules does not masquerade as an event defect; the download flag oracle is C15's matcher.",
     },
     "C13": {
